@@ -101,7 +101,7 @@ reg(PropertySpec(
 
 reg(PropertySpec(
     "C16", "Slicing, concatenating, pickling and dict-converting samples keep rows aligned",
-    functions=["samples:BaseSamples.__getitem__", "samples:Samples.__getitem__", "samples:SMCSamples.__getitem__", "samples:BaseSamples.concatenate", "samples:BaseSamples.from_dict"],
+    functions=["samples:BaseSamples.__getitem__", "samples:Samples.__getitem__", "samples:SMCSamples.__getitem__", "samples:BaseSamples.concatenate", "samples:BaseSamples.from_dict", "samples:BaseSamples.__setstate__"],
     native=_lazy("checks.native_misc", "native_C16"),
     technique="contract-based deductive verification: symbolic execution of the real __getitem__ (3 classes x 4 optional-field subsets, abstract selection idx) and concatenate against take/concat contracts, evidence-carried on the final state, frame of the source (z3); pickle / dict round trips by the bounded native stand-in",
     assumptions=["every kind of index (int array, mask, slice) is a selection take(., idx) with one index map per idx (assumed contract of array indexing)",
@@ -134,7 +134,7 @@ reg(PropertySpec(
 
 reg(PropertySpec(
     "C17", "Prior is evaluated before likelihood on the same points; evaluations are counted",
-    functions=LOGPROBS + MUTATES + ["samplers.mcmc:MCMCSampler.draw_initial_samples", "samplers.importance:ImportanceSampler.sample"],
+    functions=LOGPROBS + MUTATES + ["samplers.mcmc:MCMCSampler.draw_initial_samples", "samplers.importance:ImportanceSampler.sample", f"{SMC}:SMCSampler.restore_from_checkpoint"],
     native=_lazy("checks.native_smc", "native_C17"),
     extra_static=_lazy1("checks.static_facts", "c17_callgraph"),
     technique="contract-based deductive verification: the user's likelihood is modelled by a callable that carries the call-site obligation (samples.log_prior present and equal to the prior of exactly those rows), so every path of every caller reaching it is checked; ghost evaluation counter (z3); call-graph check that the user's likelihood is only reachable through the counting wrapper; bounded native stand-in with instrumented callables",
@@ -144,7 +144,7 @@ reg(PropertySpec(
 
 reg(PropertySpec(
     "C12", "An interrupted run always leaves a loadable, current checkpoint file",
-    functions=[f"{SMC}:SMCSampler.sample", "utils:dump_pickle_to_hdf", "samplers.base:Sampler.default_file_checkpoint_callback"],
+    functions=[f"{SMC}:SMCSampler.sample", "utils:dump_pickle_to_hdf", "samplers.base:Sampler.default_file_checkpoint_callback", "aspire:Aspire.sample_posterior", "aspire:Aspire.fit"],
     native=_lazy("checks.native_ckpt", "native_C12"),
     extra_static=_lazy1("checks.static_facts", "c12_names"),
     technique="contract-based deductive verification: cadence and payload-currency obligations on the ghost event trace of the real SMCSampler.sample loop; blob contract of dump_pickle_to_hdf over an h5py dataset model (length and bytes for absent/equal/shorter/longer previous contents); file callback contract (append mode, checkpoint/state, closed, in-memory copy); writer/reader name agreement from the ast; bounded native fault injection",
